@@ -25,17 +25,17 @@ var c11Scenarios = []string{
 }
 
 type c11Prog struct {
-	Scenario string    `json:"scenario"`
-	Key      string    `json:"key"`
-	OldSize  int       `json:"old_size"`
-	NewSize  int       `json:"new_size"`
-	Mode     string    `json:"mode"`
-	Others   int       `json:"others"` // acknowledged operations on other keys before
-	TmpDirExists bool  `json:"tmpdir_exists"`
-	Tags     bool      `json:"tags"`
+	Scenario     string `json:"scenario"`
+	Key          string `json:"key"`
+	OldSize      int    `json:"old_size"`
+	NewSize      int    `json:"new_size"`
+	Mode         string `json:"mode"`
+	Others       int    `json:"others"` // acknowledged operations on other keys before
+	TmpDirExists bool   `json:"tmpdir_exists"`
+	Tags         bool   `json:"tags"`
 	// Only: if non-zero, evaluate just this crash point (replay/minimised form)
-	OnlyStep int `json:"only_step,omitempty"`
-	OnlyTear int `json:"only_tear,omitempty"` // with OnlyStep: torn-write prefix (-1 = plain crash)
+	OnlyStep int  `json:"only_step,omitempty"`
+	OnlyTear int  `json:"only_tear,omitempty"` // with OnlyStep: torn-write prefix (-1 = plain crash)
 	Second   bool `json:"second_op,omitempty"` // thorough: a second request on another key is in flight
 }
 
@@ -123,15 +123,15 @@ type c11Step struct {
 }
 
 type c11Ctx struct {
-	e        *env.Env
-	bkt      string
-	old      *ObjState // state of the key before the operation (nil = absent)
-	new      *ObjState // state after (nil = absent)
-	others   map[string]*ObjState
-	uploadID string
-	partOld  []byte
-	partNew  []byte
-	oldVers  int // versions expected before (versioned scenarios)
+	e         *env.Env
+	bkt       string
+	old       *ObjState // state of the key before the operation (nil = absent)
+	new       *ObjState // state after (nil = absent)
+	others    map[string]*ObjState
+	uploadID  string
+	partOld   []byte
+	partNew   []byte
+	oldVers   int // versions expected before (versioned scenarios)
 	versioned bool
 	// the operation under test
 	op func() *env.Result
